@@ -250,8 +250,10 @@ def hs_line(env, rng, **kw):
     p["svc"] = kw.get("svc", 0)
     p["cca"] = kw.get("cca", 1 + rng.below(2))
     p["sca"] = kw.get("sca", 1 + rng.below(2))
-    for k in ("cam", "sam", "kpm", "first"):
+    for k in ("kpm", "first"):
         p[k] = kw.get(k, rng.below(2))
+    for k in ("cam", "sam"):                    # CA through ca_file / ca_mem / ca_path
+        p[k] = kw.get(k, rng.below(3))
     p["cut"] = kw.get("cut", 0)
     p["bias"] = kw.get("bias", rng.choice([8, 64, 128, 128, 192, 248]))
     p["burst"] = kw.get("burst", rng.choice([1, 1, 2, 4, 16, 64]))
@@ -267,9 +269,15 @@ def hs_line(env, rng, **kw):
         extra = ["rc=%d" % rc] + ["%s=%d" % (k, a[k]) for k in sorted(a)]
     if "depth" in kw:
         extra.append("depth=%d" % kw["depth"])
-    scert = server_cert(kw.get("scert", "trusted"), p["cca"], kw.get("names", "std"))
+    # source of every keypair half, independently: server cert, server key, client cert, client key (0 mem, 1 file)
+    for k in ("scs", "sks", "ccs", "cks"):
+        extra.append("%s=%d" % (k, kw.get(k, rng.below(2))))
+    if "scert_desc" in kw:
+        scert = kw["scert_desc"](p["cca"])
+    else:
+        scert = server_cert(kw.get("scert", "trusted"), p["cca"], kw.get("names", "std"))
     ccert = client_cert(kw.get("ccert", "none"), p["sca"])
-    host = HOSTS[kw.get("host", "match")]
+    host = kw["host_raw"] if "host_raw" in kw else HOSTS[kw.get("host", "match")]
     words = ["hs"] + ["%s=%d" % (k, p[k]) for k in
                       ("ciph", "cp", "sp", "vc", "vn", "vt", "svc", "svt", "cca", "sca", "cam", "sam", "kpm",
                        "first", "cut", "bias", "burst", "buf", "n", "chunk", "seed", "noise")]
@@ -329,6 +337,50 @@ def reconfigure_family(env, rng):
                                             scert=sc, sca=sca, cca=cca, host="match", rc=rc, A=a,
                                             n=rng.below(300), noise=rng.choice([0, 0, 20]),
                                             depth=rng.choice([-1, 0, 1, 6]))])
+    return out
+
+
+def source_family(env, rng):
+    """every combination of sources: CA file/mem/path on each side x (cert, key) file/mem for server and client"""
+    out = []
+    for cam in range(3):
+        for sam in range(3):
+            for bits in range(16):
+                out.append([hs_line(env, rng, ciph=0, cp=24, sp=24, vc=1, vn=1, vt=1, svt=1, svc=rng.choice([1, 2]),
+                                    scert="trusted", ccert="trusted", host="match", cam=cam, sam=sam,
+                                    scs=bits & 1, sks=(bits >> 1) & 1, ccs=(bits >> 2) & 1, cks=(bits >> 3) & 1,
+                                    n=rng.below(200), rc=rng.choice([0, 0, 1, 2]))])
+    return out
+
+
+IP_HOSTS = {"127.0.0.1": bytes([127, 0, 0, 1]), "::1": bytes(15) + b"\x01", "192.168.1.1": bytes([192, 168, 1, 1])}
+IP_WILD = {"127.0.0.1": "*.0.0.1", "::1": "*.0.0.1", "192.168.1.1": "*.168.1.1"}
+
+
+def ip_family(env, rng):
+    """IP-literal server names against CN / SAN shapes; coverage is decided by the C08 model (an IP literal is
+    covered by an iPAddress SAN with the same octets or, without any match in the SANs, by a CN that is the very
+    same string -- never by a wildcard)"""
+    out = []
+    for host, octets in IP_HOSTS.items():
+        other = bytes([octets[0] ^ 1]) + octets[1:]
+        shapes = [
+            (host, []),                                                   # CN = the literal
+            (IP_WILD[host], []),                                          # wildcard CN with matching tail
+            (host.upper() if ":" in host else host + ".", []),            # near miss
+            (IP_WILD[host], ["i" + vf.hexs(octets)]),                     # iPAddress SAN match
+            (IP_WILD[host], ["i" + vf.hexs(other)]),                      # iPAddress SAN mismatch + wildcard CN
+            (IP_WILD[host], ["d" + hx("server.com")]),                    # dNSName SAN, CN fallback to the wildcard
+            (host, ["d" + hx("server.com")]),                             # dNSName SAN, CN fallback to the literal
+            ("server.com", ["d" + hx(IP_WILD[host])]),                    # wildcard dNSName SAN
+            (None, ["i" + vf.hexs(octets), "d" + hx("server.com")]),
+        ]
+        for cn, sans in shapes:
+            for vn in (0, 1):
+                for vc in (0, 1):
+                    out.append([hs_line(env, rng, ciph=0, cp=24, sp=rng.choice([8, 24]), vc=vc, vn=vn, vt=1, svc=0,
+                                        ccert="none", host_raw=host, n=rng.below(100), noise=0,
+                                        scert_desc=(lambda cca, cn=cn, sans=sans: certdesc(cca, "v", "s", cn, sans)))])
     return out
 
 
@@ -482,7 +534,7 @@ def probe(run, ca0):
     lines = []
     for ciph in (0, 1):
         for v in (2, 4, 8, 16):
-            lines.append(hs_line(env0, rng, ciph=ciph, cp=v, sp=v, vc=0, vn=0, n=1, cut=0, buf=0, noise=0, rc=0))
+            lines.append(hs_line(env0, rng, ciph=ciph, cp=v, sp=v, vc=0, vn=0, n=1, cut=0, buf=0, noise=0, rc=0, cam=0, sam=0, scs=0, sks=0, ccs=0, cks=0))
     for c in CIPHERS:
         if c is not None:
             lines.append("cfg ca0:%s ciphers:%s:1 |" % (hx(ca0), hx(c)))
@@ -582,6 +634,11 @@ def run_checked(ck, run, env, ca0, cipher_ok, curve_nid):
         "in 2 of 5 sessions (and in the whole reconfigure family: 2 x 3 x 4 x 3 x 3 cases) the same client and "
         "server contexts are first configured with another configuration A (rc=1), or configured with A, used for "
         "a session attempt, closed and tls_reset (rc=2), before the configuration that counts; "
+        "every session draws the source of each item independently: CA through ca_file / ca_mem / ca_path on each "
+        "side, server certificate, server key, client certificate, client key each from memory or from a file (all "
+        "3 x 3 x 16 combinations in the `sources` family) -- FRAME CONDITION: the decision model has no source input, "
+        "so the outcome must not depend on it; IP-literal server names (127.0.0.1, ::1, 192.168.1.1) x 9 CN/SAN "
+        "shapes x verify_name x verify_cert with the C08 model as name oracle; "
         "an endpoint whose handshake was refused keeps calling tls_write/tls_read 4 more times (after=crossed if "
         "anything is accepted or delivered); "
         "inj case = one wrapper call (or tls_handshake followed by one I/O call) on a hand-set state with 3 scripted "
@@ -596,7 +653,9 @@ def run_checked(ck, run, env, ca0, cipher_ok, curve_nid):
         "transport cut = shutdown(fd, SHUT_RDWR) by the peer after the data phase",
         "OpenSSL permits per cipher setting: default=%d, DEFAULT:@SECLEVEL=0=%d (TLS_PROTOCOL_* masks, probed)"
         % (env.perm[0], env.perm[1]),
-        "tls_get_conninfo does not fail (allocation failure is property C10)"]
+        "tls_get_conninfo does not fail (allocation failure is property C10)",
+        "frame condition: where a CA / certificate / key comes from (file, memory, hashed directory) is not an input "
+        "of the decision model"]
     ck.cov["openssl_permitted_masks"] = {"default": env.perm[0], "seclevel0": env.perm[1]}
     ck.cov["platform_inet_pton_mode"] = env.pton
     rng = vf.SplitMix(ck.seed * 1000003 + 17)
@@ -629,6 +688,18 @@ def run_checked(ck, run, env, ca0, cipher_ok, curve_nid):
     nfail += run.par_compare(prm, "protocol-matrix", chunk=60, workers=12)
     ck.cov["protocol_matrix_cases"] = len(prm)
     ck.sample(prm[300][0])
+
+    # sources: CA file/mem/path x certificate/key file/mem per item (frame condition: never changes the outcome)
+    sf = source_family(env, rng)
+    nfail += run.par_compare(sf, "sources", chunk=24, workers=12)
+    ck.cov["source_family_cases"] = len(sf)
+    ck.sample(sf[37][0])
+
+    # IP-literal server names x CN / SAN shapes, verdict of the C08 model as name oracle
+    ipf = ip_family(env, rng)
+    nfail += run.par_compare(ipf, "ip-names", chunk=18, workers=12)
+    ck.cov["ip_name_family_cases"] = len(ipf)
+    ck.sample(ipf[5][0])
 
     # reconfigure family: the outcome is that of the LAST configuration alone
     rf = reconfigure_family(env, rng)
